@@ -279,6 +279,31 @@ pub fn step(env: &mut Env, op: &str, st: &J, out: &str) -> Option<J> {
             env.strs.insert(out.to_string(), serde_json::to_string(&all).unwrap());
             Some(json!({"builder_seqs": out, "results": all}))
         }
+        "claim_ctors" => {
+            // constructors of custom / time claims on a list of candidate strings
+            let mut res = vec![];
+            for c in st["cases"].as_array().cloned().unwrap_or_default() {
+                let kind = c["kind"].as_str().unwrap_or("custom");
+                let form = c["form"].as_str().unwrap_or("str");
+                let text = c["text"].as_str().unwrap_or("").to_string();
+                let r = guarded(|| {
+                    fn show<E: std::fmt::Debug>(r: Result<(String, String), E>) -> Result<String, String> { r.map(|(k, v)| format!("{}={}", k, v)).map_err(|e| format!("{:?}", e)) }
+                    match (kind, form) {
+                        ("custom", "key_only") => show(CustomClaim::<&str>::try_from(text.as_str()).map(|c| (c.get_key().to_string(), String::new()))),
+                        ("custom", "tuple_str") => show(CustomClaim::<u8>::try_from((text.as_str(), 7u8)).map(|c| (c.get_key().to_string(), String::new()))),
+                        ("custom", _) => show(CustomClaim::<u8>::try_from((text.clone(), 7u8)).map(|c| (c.get_key().to_string(), String::new()))),
+                        ("exp", "str") => show(ExpirationClaim::try_from(text.as_str()).map(|c| c.as_ref().clone())),
+                        ("exp", _) => show(ExpirationClaim::try_from(text.clone()).map(|c| c.as_ref().clone())),
+                        ("nbf", "str") => show(NotBeforeClaim::try_from(text.as_str()).map(|c| c.as_ref().clone())),
+                        ("nbf", _) => show(NotBeforeClaim::try_from(text.clone()).map(|c| c.as_ref().clone())),
+                        ("iat", "str") => show(IssuedAtClaim::try_from(text.as_str()).map(|c| c.as_ref().clone())),
+                        (_, _) => show(IssuedAtClaim::try_from(text.clone()).map(|c| c.as_ref().clone())),
+                    }
+                });
+                res.push(json!({"kind": kind, "form": form, "text": text, "result": r.kind(), "value": match &r { Outcome::Ok(s) | Outcome::Err(s) | Outcome::Panic(s) => s.clone() }}));
+            }
+            Some(json!({"claim_ctors": out, "results": res}))
+        }
         "parser_run" => {
             let proto = st["proto"].as_str().unwrap_or("v4.local");
             let pk = env.bytes_of(&st["key"]);
